@@ -58,6 +58,60 @@ def exact_closure(g):
     return {(nodes[i], nodes[j]): K[i][j] for i in range(n) for j in range(n)}
 
 
+def noncommutative_stream(ctx, n, L=4):
+    """closed semirings need not be commutative: languages of words of length <= L under union and
+    concatenation; reference = labels of all paths enumerated by brute force (search only, no Coq model:
+    the Coq development assumes commutativity)"""
+    jobs, cases = [], []
+    for _ in range(n):
+        k = ctx.rng.randint(2, 4)
+        nodes = list(range(k))
+        edges = {}
+        for _ in range(ctx.rng.randint(2, 2 * k)):
+            i, j = ctx.rng.choice(nodes), ctx.rng.choice(nodes)
+            edges[(i, j)] = ctx.rng.choice("abcd")
+        E = [[i, j, lab] for (i, j), lab in sorted(edges.items())]
+        b = [[ctx.rng.choice(nodes), "x"]]
+        jobs.append({"queries": [{"op": "closure_nc", "nodes": nodes, "edges": E, "b": b, "L": L, "timeout": 30}]})
+        cases.append((nodes, E, b))
+    res = run_w(jobs)
+    for (nodes, E, b), r in zip(cases, res):
+        q = r[0]
+        ctx.cov["oracle_cases"] += 1
+        ctx.dist("noncommutative")
+        if "err" in q:
+            viol(ctx, f"closure-nc:error:{q['err'][:30]}", f"closure over a non-commutative semiring raised {q['err']}", {"kind": "linear-nc-error", "nodes": nodes, "edges": E, "b": b, "error": q["err"]})
+            continue
+        # brute force: labels of all paths with at most L edges
+        paths = {(i, i): {""} for i in nodes}
+        frontier = {(i, i, "") for i in nodes}
+        for _ in range(L):
+            nxt = set()
+            for (i, j, w) in frontier:
+                for (p, q_, lab) in E:
+                    if p == j and len(w) < L:
+                        nxt.add((i, q_, w + lab))
+            for (i, j, w) in nxt:
+                paths.setdefault((i, j), set()).add(w)
+            frontier = nxt
+        o = q["ok"]
+        for name in ("scc", "ref"):
+            for i in nodes:
+                for k in nodes:
+                    got = set(o[name].get(f"{i},{k}", []))
+                    want = paths.get((i, k), set())
+                    if got != want:
+                        viol(ctx, f"closure_{name}:noncommutative", f"closure_{name}[{i},{k}] over the language semiring = {sorted(got)}; labels of all paths: {sorted(want)}", {"kind": "linear-nc", "what": name, "nodes": nodes, "edges": E, "b": b, "i": i, "k": k, "observed": sorted(got), "expected": sorted(want)})
+        bi, bl = b[0]
+        for i in nodes:
+            wl = {(bl + w)[:L + 9] for w in paths.get((bi, i), set()) if len(bl + w) <= L}     # x = xA + b : b K
+            wr = {(w + bl) for w in paths.get((i, bi), set()) if len(w + bl) <= L}            # x = Ax + b : K b
+            for name, want in (("solve_left", wl), ("solve_right", wr)):
+                got = set(o[name].get(str(i), []))
+                if got != want:
+                    viol(ctx, f"{name}:noncommutative", f"{name}(b)[{i}] over the language semiring = {sorted(got)}, expected {sorted(want)}", {"kind": "linear-nc", "what": name, "nodes": nodes, "edges": E, "b": b, "i": i, "observed": sorted(got), "expected": sorted(want)})
+
+
 def run(ctx):
     quick = ctx.tier == "quick"
     ctx.cov["rule"] = ("random weighted graphs (1-5 nodes, self loops, nested cycles, several components, isolated nodes, non-contiguous node names, rational weights with row sums < 1) and right-hand sides: "
@@ -135,10 +189,16 @@ def run(ctx):
                 ctx.cov["oracle_cases"] += 1
                 if not close_enough(v, want, rel=1e-9):
                     viol(ctx, name, f"{name}(b)[{i}] = {v}; least solution is {want}", {"kind": "linear", "what": name, "graph": g, "i": i, "observed": str(v), "expected": str(want)})
+    noncommutative_stream(ctx, 25 if quick else 250)
     ctx.sample({"graph": gs[0], "blocks": res[0][0].get("ok", {}).get("blocks")})
 
 
 def replay(obj):
+    if obj.get("kind", "").startswith("linear-nc"):
+        r = run_w([{"queries": [{"op": "closure_nc", "nodes": obj["nodes"], "edges": obj["edges"], "b": obj["b"], "L": 4}]}])[0][0]
+        print(json.dumps({k: obj[k] for k in ("nodes", "edges", "b")}))
+        print("->", json.dumps(r)[:2000], "expected:", obj.get("expected"))
+        return 0
     g = obj["graph"]
     r = run_w([{"queries": [{"op": "closure", "nodes": g["nodes"], "edges": g["edges"], "b": g["b"]}]}])[0][0]
     print("graph:", json.dumps(g))
